@@ -166,6 +166,9 @@ class LessParser(object):
                     out.append(pu.parse(self.scope))
                 except SyntaxError as e:
                     self.handle_error(e, 0)
+                except RecursionError:
+                    # e.g. a mixin that reaches itself through a nested rule
+                    self.handle_error('Recursion too deep (a mixin calling itself?)', 0)
             self.result = list(utility.flatten(out))
 
     def scopemap(self):
